@@ -23,6 +23,7 @@ GENERATORS = [
     ("GenPar.v", "tr_par"),
     ("GenUi.v", "tr_ui"),
     ("GenMain.v", "tr_main"),
+    ("GenClassify.v", "tr_classify"),
 ]
 
 
